@@ -106,6 +106,28 @@ def run(ctx):
             both = np.concatenate([p.ravel(), r.ravel()])
             mp_p, k1 = relabel(rng, both, hi)
             mp_r, k2 = mp_p, k1
+        if dt2 in ("uint8", "uint16") and it != "semantic" and rng.random() < 0.25 and p.any() and r.any():
+            # labels of the two arrays that add up to 2^bits of the dtype (any arithmetic combining the two label arrays in their own
+            # dtype sees background there), preferably on an overlap voxel at the rim of the common foreground
+            half = 2 ** ({"uint8": 8, "uint16": 16}[dt2] - 1)
+            k = 0 if it == "matched" else rng.randint(0, 20)
+            pl, rl = [int(x) for x in np.unique(p) if x], [int(x) for x in np.unique(r) if x]
+            both = np.argwhere((p != 0) & (r != 0) & ((p == r) if it == "matched" else True))
+            fg = np.argwhere((p != 0) | (r != 0))
+            lo, hi_ = fg.min(0), fg.max(0)
+            rim = [tuple(v) for v in both if any(v[a] == lo[a] or v[a] == hi_[a] for a in range(p.ndim))]
+            pick = rng.choice(rim) if rim else (tuple(both[rng.randrange(len(both))]) if len(both) else None)
+            if pick is not None:
+                pl = [int(p[pick])] + [x for x in pl if x != int(p[pick])]
+                rl = [int(r[pick])] + [x for x in rl if x != int(r[pick])]
+            if it == "matched":
+                labs = pl + [x for x in rl if x not in pl]
+                rest = rng.sample([v for v in range(1, hi + 1) if v != half], len(labs) - 1)
+                mp_p = mp_r = dict(zip(labs, [half] + rest))
+            else:
+                mp_p = dict(zip(pl, [half - k] + rng.sample([v for v in range(1, hi + 1) if v != half - k], len(pl) - 1)))
+                mp_r = dict(zip(rl, [half + k] + rng.sample([v for v in range(1, hi + 1) if v != half + k], len(rl) - 1)))
+            k1 = k2 = "complement"
         p2, r2 = apply(p, mp_p, dt2), apply(r, mp_r, dt2)
         uniq = meta.unique_matching(cfg, *( (p, r) if it != "semantic" else (p, r) )) if it != "semantic" else True
         if it == "semantic":
